@@ -105,7 +105,10 @@
 //!
 //! See [`env::LocalesProvider`] trait for an example of a reactive system implementation.
 mod bundles;
+#[cfg(not(fluent_rs_verif))]
 mod cache;
+#[cfg(fluent_rs_verif)]
+pub mod cache;
 pub mod env;
 mod errors;
 pub mod generator;
